@@ -342,12 +342,21 @@ REG.contract(
     ensures=["same(sigma('data'), store_data(old(sigma('data')), d, stored_as(data, ite_(had, old(ddtype(d)), dtype))))",
              "had implies (unchanged('link') and unchanged('ord') and unchanged('kind') and unchanged('fresh') "
              "and unchanged('dtype'))",
+             "only_changed_at('dshape', d) and only_changed_at('dtype', d)",
              "(not had) implies (same(sigma('link'), link_set(old(sigma('link')), g, name, d)) and "
              "same(sigma('ord'), ord_set(old(sigma('ord')), g, old(order(g)) + (name,))) and "
              "freshid() == old(freshid()) + 1 and okind(d) == 2 and ddtype(d) == ite_(is_none(dtype), "
              "uf('dtype_of_first', data), dtype))"],
     note="creates (shape = np.shape(data), given dtype or the dtype of data[0]) or resizes the named dataset and "
          "writes data; a conversion failure happens AFTER the resize (raise_dirty)")
+
+
+@REG.specfunc()
+def only_changed_at(ex, p, comp, o):
+    """store component `comp` differs from its pre-state value at most at object o"""
+    nm = z3.simplify(comp.t).as_string()
+    old = _oldp(ex, p)
+    return VBool(p.sigma[nm] == z3.Store(old.sigma[nm], o.t, p.sigma[nm][o.t]))
 
 
 @REG.specfunc()
